@@ -174,6 +174,11 @@ def no_long_block(gen):
 def run(R, ctx):
     run_codec(R, ctx)
     codec_conc(R)
+    from .. import clustersuite
+    clustersuite.one_node_probe(R, "q-halfclose-cluster-1", R.seed * 1000 + 3,
+                                "a real cluster node answers a pipeline written by a client that closes its sending side at once exactly as a standalone server does "
+                                "(every command answered, in order, before the end of the stream is acted on)",
+                                "the reply to a command submitted through a cluster node differs from the standalone server's")
     rule_codec = ("codec: argument vectors of 1-6 arguments from the binary alphabet (empty, spaces, CR/LF, NUL, 0xff, RESP fragments), UTF-8 edge cases "
                   "(every first-byte class, E0/ED/F0/F4 second-byte limits, truncated sequences, U+2028/9, surrogates), every single byte, random bytes of "
                   "every length 0..20 (all base64 padding cases) and longer, nil elements, the empty array, PUBLISH/SUBSCRIBE in every letter case; "
@@ -215,6 +220,9 @@ def replay_conc(R, payload):
 
 
 def replay(R, payload):
+    if payload.get("engine") == "cluster":
+        from .. import clustersuite
+        return clustersuite.replay_cluster(R, payload)
     if payload.get("engine") == "codec-conc":
         return replay_conc(R, payload)
     """re-run the recorded lines through the recorded engine (cluster-path programs with VERIF_CLUSTER_PATH=1) and the driver"""
